@@ -78,7 +78,11 @@ def run_job(job, workroot, tools, support_o):
         return {"status": "inconclusive", "why": "clang crashed or timed out (rc=%s)" % rc, "detail": err[-300:]}
     if rc != 0:
         e = _first_error(err)
-        root = compz.keyword_root_cause(err, compz.read_wit(job["wit"]), compz.C_KEYWORDS)
+        wit_text = compz.read_wit(job["wit"])
+        root = compz.keyword_root_cause(err, wit_text, compz.C_KEYWORDS)
+        if not root and re.search(r"(?<![\w-])(u?int(8|16|32|64)-t|size-t)(?![\w-])", wit_text) and \
+                re.search(r"expected ';' after expression|undeclared identifier|redefinition of|expected identifier", e):
+            root = "stdint-typename-as-identifier"
         return {"status": "violation", "stage": "clang", "sig": compz.signature(job, "c:clang:", root or compz.normalise(e)), "what": "clang rejects the generated C: " + e,
                 "detail": err[:1500]}
     with open(os.path.join(d, hs[0])) as f:
